@@ -146,7 +146,8 @@ CHECKS = {
          "escape/no-escape must match the tool), on random hostile archives (.., absolute, backslash/0xFF/NUL names, link/file/dir "
          "name reuse, options f/i/q/w=, pre-existing files and links) and with read-only commands; every system call is replayed "
          "on FsModel: its outcome must equal the kernel's, and Confined / NoEarlyDanger / O_EXCL-only / ReadOnly are evaluated "
-         "after each call.",
+         "after each call. Every raw path extended header of up to 3 (thorough: 4) tokens over {.., ., a, NUL, 0xFF, /, \\} is "
+         "extracted as a directory entry with recorded permissions and time and as a file entry.",
     design_ref="DESIGN.md section 5, C10",
     note="Precondition of the statement: no symbolic links to directories in the initial tree. One known finding is recorded "
          "(known_findings.json) and reported as KNOWN-FINDING; any other escape is a violation.",
